@@ -26,8 +26,14 @@ CLAIMED["C06"] = ("model_checking",
     "legal scripted transport; limits in {none,0,1,2} combinations; 2 peers in TLC, 3 in random runs",
     "DESIGN.md 4/C06")
 
+CLAIMED["C10"] = ("model_checking",
+    "TLA+ spec AddrBook (Impl transcription with nondeterministic minimum eviction + Prop predicates + filter decision table) checked by TLC; TLC behaviours and random histories replayed into the real AddressStore, add_known_address filter and TransportManager::dial; recorded calls validated by TLC",
+    "TLC shows the store transcription refines the property-level insert/list relations for all histories up to 4-5 operations (K=2,3) and that the filter decision table only admits attributable, non-local, TCP-dialable shapes; every transition of the K=2 graph (embedded in the real 64-slot store), random 300-op histories over >64 addresses, every constructible multiaddress shape class and dial/re-score rounds on the real manager are recorded and validated by TLC: bound 64, a displaced record is a minimum, results re-score exactly the dialed addresses and survive rediscovery, dial tries the best addresses in score order within free outbound capacity.",
+    "TCP is the only enabled transport in the pinned build; shape classes sampled with seeded instances; small-scope constants in TLC",
+    "DESIGN.md 4/C10")
+
 # harness binaries each claimed property needs (setup builds exactly these)
-BINS = {"C17": ["store"], "C05": ["connmgr"], "C06": ["connmgr"]}
+BINS = {"C17": ["store"], "C05": ["connmgr"], "C06": ["connmgr"], "C10": ["addrbook"]}
 
 NOT_YET = "check not built yet (work in progress, see DESIGN.md build order)"
 NA = {}
